@@ -1614,11 +1614,33 @@ func (g *fgen) convert(x *ssa.Convert, st *state) {
 			eb, sb = 8, 24
 		}
 		g.define(x, intToFloatTerm(fi, v.t, eb, sb))
+		g.intFloatFacts(g.get(x).t)
 	case isFloatSort(v.sort) && tok:
 		// float -> int: value is implementation-defined when out of range; model in-range exactly
-		r := g.defineUnknown(x, st)
-		g.fact("true", fmt.Sprintf("(=> (and (not (fp.isNaN %s)) (not (fp.isInfinite %s)) (fp.leq %s %s) (fp.leq %s %s)) (= %s (to_int (fp.to_real (fp.roundToIntegral RTZ %s)))))",
-			v.t, v.t, floatOfInt(ti.min()), v.t, v.t, floatOfInt(ti.max()), r.t, v.t))
+		// out of range the result is implementation-defined, but it is a function of the
+		// operand (the same conversion of the same value gives the same result)
+		fname := fmt.Sprintf("f2i_%s_%s", mangle(v.sort), mangle(types.TypeString(to.Underlying(), nil)))
+		if !g.declared[fname] {
+			g.declared[fname] = true
+			g.emit(fmt.Sprintf("(declare-fun %s (%s) Int)", fname, v.sort))
+		}
+		g.define(x, fmt.Sprintf("(%s %s)", fname, v.t))
+		r := g.get(x)
+		g.fact("true", g.wf(r.t, to, "", 0))
+		// in range: lo <= trunc(v) <= hi, i.e. lo-1 < v < hi+1 with both bounds powers of
+		// two (or -1), exactly representable in the source format
+		lo, hi := "(- "+pow2(ti.bits-1)+")", pow2(ti.bits-1)
+		loCmp := "fp.leq"
+		if !ti.signed {
+			lo, hi = "(- 1)", pow2(ti.bits)
+			loCmp = "fp.lt"
+		}
+		fw := "11 53"
+		if v.sort == "(_ FloatingPoint 8 24)" {
+			fw = "8 24"
+		}
+		g.fact("true", fmt.Sprintf("(=> (and (not (fp.isNaN %s)) (not (fp.isInfinite %s)) (%s ((_ to_fp %s) RNE (to_real %s)) %s) (fp.lt %s ((_ to_fp %s) RNE (to_real %s)))) (= %s (to_int (fp.to_real (fp.roundToIntegral RTZ %s)))))",
+			v.t, v.t, loCmp, fw, lo, v.t, v.t, fw, hi, r.t, v.t))
 	case isFloatSort(v.sort) && isFloatSort(g.sortOf(to)):
 		if v.sort == g.sortOf(to) {
 			g.define(x, v.t)
@@ -2037,4 +2059,13 @@ func (g *fgen) assumeAxioms() {
 func refIface(v ssa.Value) bool {
 	mi, ok := v.(*ssa.MakeInterface)
 	return ok && isRefSort(mi.X.Type())
+}
+
+// intFloatFacts: the float an integer converts to is finite, not NaN and never negative
+// zero (stated so that the solver need not unfold the bit-level conversion).
+func (g *fgen) intFloatFacts(t string) {
+	if strings.Contains(t, "q!") || strings.Contains(t, "a!") {
+		return
+	}
+	g.fact("true", fmt.Sprintf("(and (not (fp.isNaN %s)) (not (fp.isInfinite %s)) (not (and (fp.isZero %s) (fp.isNegative %s))))", t, t, t, t))
 }
